@@ -12,7 +12,7 @@ from ..cases import Interp, Lin, Oracle, Sym, Undecided
 from ..cfg import CFG, ENTRY, EXIT, RAISE
 from ..core import Ctx
 from ..flow import AV
-from ..model import AnalysisError, FuncInfo, dotted, norm, walk_no_nested, body_stmts, kwarg
+from ..model import AnalysisError, FuncInfo, canon, dotted, norm, walk_no_nested, body_stmts, kwarg
 from .common import enclosing, prog, resolve_local
 
 RI_FIELDS = ("_annotations", "_categories", "bound_inf", "bound_sup")
@@ -706,27 +706,24 @@ def rule_accessors(ctx: Ctx):
         f = ctx.fn(qn, "R-SUP")
         b = body_stmts(f.node)
         got = None
-        if len(b) == 1 and isinstance(b[0], ast.Return):
-            got = norm(b[0].value)
+        if len(b) == 1 and isinstance(b[0], ast.Return) and b[0].value is not None:
+            v = b[0].value
+            # sum([...]) and sum((...)) are the same aggregate
+            if isinstance(v, ast.Call) and v.args and isinstance(v.args[0], ast.ListComp):
+                import copy as _c
+                v = _c.deepcopy(v)
+                v.args[0] = ast.GeneratorExp(elt=v.args[0].elt, generators=v.args[0].generators)
+            got = canon(v)
             sn = f.self_name
             if sn and sn != "self":
                 got = got.replace(sn + ".", "self.")
-            # rename the comprehension variable canonically
-            if isinstance(b[0].value, ast.Call):
-                for g in ast.walk(b[0].value):
-                    if isinstance(g, (ast.GeneratorExp, ast.ListComp)) and len(g.generators) == 1 and isinstance(g.generators[0].target, ast.Name):
-                        v = g.generators[0].target.id
-                        import re
-                        canon = "units" if "num_units" in qn else "annotations"
-                        got = re.sub(rf"\b{v}\b", canon, got)
-            got = got.replace("[", "(", 0)
-        ok = got in accepted or (got is not None and got.replace("sum([", "sum((").replace("])", "))") in accepted)
+        ok = got is not None and got in {canon(a) for a in accepted}
         if ok:
-            ctx.ok("R-SUP", f, b[0], f"{qn} == {got}", key="accessor")
+            ctx.ok("R-SUP", f, b[0], f"{qn} == {norm(b[0].value)}", key="accessor")
         elif got is None:
             ctx.undecided("R-SUP", f, None, "accessor is not a single return expression", key="accessor")
         else:
-            ctx.bad("R-SUP", f, b[0], f"{qn} returns `{got}`; specification accepts {sorted(accepted)}", key="accessor")
+            ctx.bad("R-SUP", f, b[0], f"{qn} returns `{norm(b[0].value)}`; specification accepts {sorted(accepted)}", key="accessor")
     it = ctx.fn("Continuum.__iter__", "R-SUP")
     loops = [n for n in walk_no_nested(it.node) if isinstance(n, ast.For)]
     ok = len(loops) == 2 and norm(loops[0].iter) == f"{it.self_name}._annotations.items()" and \
